@@ -9,6 +9,9 @@ use acpi_tables::rqsc;
 pub struct Rqsc;
 /// shape: bits 0-1 number of resources, bits 2-4 kind of the first resource (kinds rotate), bit 5: twelve resources
 /// (a controller structure longer than 255 bytes)
+pub fn nres_of(op: &Op) -> u16 {
+    op.fill.size().map(|n| n as u16).unwrap_or(nres(op.shape))
+}
 pub fn nres(shape: u16) -> u16 {
     if shape & 32 != 0 {
         12
@@ -102,12 +105,26 @@ impl Table for Rqsc {
             let f = &op.fill;
             let ct = if f.e(0, 2) == 0 { rqsc::ControllerType::Capacity } else { rqsc::ControllerType::Bandwidth };
             let mut q = rqsc::QoSController::new(ct, real_gas(f, 1), f.u32(6), f.u32(7), f.u16(8));
-            for r in 0..nres(op.shape) {
+            for r in 0..nres_of(op) {
                 q.add_resource(real_res(f, 9 + 5 * (r % 3) as u8, res_kind(op.shape, r)));
             }
             t.add_controller(q);
             obs(i + 1, &t, &[]);
         }
+    }
+    /// every resource count 0..=40 for every first resource kind (controller sizes across 256), between other controllers
+    fn sweeps(&self, _level: u8) -> Vec<(String, Vec<Op>)> {
+        let mut v = vec![];
+        for n in 0..=40u64 {
+            for k in 0..7u16 {
+                if n > 6 && (n + k as u64) % 3 != 0 {
+                    continue;
+                }
+                let x = Op { k: 0, shape: ctl_shape(0, k), fill: crate::fill::Fill::b(2).with(crate::fill::SZ, n) };
+                v.push((format!("controller[{} resources from kind {}]", n, k), vec![Op::new(0, ctl_shape(1, 1), 1), x, Op::new(0, ctl_shape(2, 3), 2)]));
+            }
+        }
+        v
     }
     fn reference(&self, c: &Ctor, ops: &[Op]) -> RefOut {
         // header, number of QoS controllers(4), controller structures
@@ -119,13 +136,13 @@ impl Table for Rqsc {
             let f = &op.fill;
             let o = w.len();
             let mut rs = W::new();
-            for r in 0..nres(op.shape) {
+            for r in 0..nres_of(op) {
                 ref_res(&mut rs, f, 9 + 5 * (r % 3) as u8, res_kind(op.shape, r));
             }
             // controller type(1), reserved(1), length(2), register GAS(12), RCID count(4), MCID count(4), flags(2), n resources(2), resources
             w.u8(f.e(0, 2) as u8).u8(0).u16((28 + rs.len()) as u16);
             ref_gas(&mut w, f, 1);
-            w.u32(f.u32(6)).u32(f.u32(7)).u16(f.u16(8)).u16(nres(op.shape)).b(&rs.0);
+            w.u32(f.u32(6)).u32(f.u32(7)).u16(f.u16(8)).u16(nres_of(op)).b(&rs.0);
             ents.push(Ent { off: o, ty: f.e(0, 2) as u32, len: w.len() - o });
         }
         ref_finish(&mut w);
